@@ -14,7 +14,8 @@ pub const SEG_ALPHA: [&[u8]; 24] = [
     b"a", b"b", b"x.y", b"a b", b"\xc3\xa9", b"%", b"a/b", b"*", b"!", b"~", b"a=b", b"a&b", b"?", b"#", b"\x00", b"\xff",
     b"...", b"A", b"0", b"+", b"%41", b"..a", b"a..", b"-_",
 ];
-pub const NAME_ALPHA: [&[u8]; 24] = [
+pub const NAME_ALPHA: [&[u8]; 26] = [
+    b"\xef\xbb\xbfbom", b"\xef\xbb\xbf",
     b"a", b"a-b", b"a1", b"a.", b"b", b"", b"A", b"a b", b"\xc3\xa9", b"x=y", b"x&y", b"%41", b"+", b"~", b"Action",
     b"X-Amz-Foo", b"a%", b"a-", b"a!", b"a~", b"aa", b"\xff", b"\x00", b"a+b",
 ];
@@ -51,9 +52,11 @@ pub fn gen_accounts(t: &mut Tape, max: usize) -> Vec<Account> {
                 secret = format!("s{}", i);
             }
         }
-        let token = match t.below(4) {
-            0 => Some("tok/en+abc==".to_string()),
-            1 => Some(format!("FwoGZXIvYXdzE{}//////////wEaD+/=", i)),
+        let token = match t.below(9) {
+            0 | 1 => Some("tok/en+abc==".to_string()),
+            2 | 3 => Some(format!("FwoGZXIvYXdzE{}//////////wEaD+/=", i)),
+            // present but empty: still a token the key store must be asked about
+            4 => Some(String::new()),
             _ => None,
         };
         let mut rotated = format!("R{}", secret);
@@ -248,7 +251,12 @@ pub fn gen_logical(t: &mut Tape, node: &Node, k: &ReqKnobs) -> Logical {
             body_defect = true;
             let p = gen_pairs(t, 2);
             body = render_form_body(&p, t, 0);
-            body.extend([&b"&k=\xff"[..], b"\xc3", b"&\xe2\x82=1", b"\x80"][t.below(4)]);
+            match t.below(6) {
+                // byte-order marks of other encodings in front of a body declared (or defaulting to) UTF-8
+                0 => body.splice(0..0, b"\xff\xfe".iter().cloned()).for_each(drop),
+                1 => body.splice(0..0, b"\xfe\xff".iter().cloned()).for_each(drop),
+                _ => body.extend([&b"&k=\xff"[..], b"\xc3", b"&\xe2\x82=1", b"\x80"][t.below(4)]),
+            }
             form_pairs = Some(p);
             headers.push(("content-type".into(), b"application/x-www-form-urlencoded".to_vec()));
         }
@@ -295,6 +303,17 @@ pub fn gen_logical(t: &mut Tape, node: &Node, k: &ReqKnobs) -> Logical {
             body = render_form_body(&p, t, 0);
         }
         _ => {}
+    }
+    // S3-style clients declare the payload digest in a header (which may or may not get signed)
+    if t.chance(5) {
+        let v: Vec<u8> = match t.below(4) {
+            0 => b"UNSIGNED-PAYLOAD".to_vec(),
+            1 => refm::sha_hex(b"").into_bytes(),
+            _ => refm::sha_hex(&body).into_bytes(),
+        };
+        headers.retain(|(n, _)| n != "x-amz-content-sha256");
+        let pos = t.below(headers.len() + 1);
+        headers.insert(pos, ("x-amz-content-sha256".into(), v));
     }
     let absolute = if t.chance(8) {
         Some(("http".to_string(), "example.amazonaws.com:8080".to_string()))
